@@ -52,6 +52,9 @@ FAMILIES = [
     (r"^h_spawn_parent", "spawn", []),
     (r"^h_spawn_child", "spawn", []),
     (r"^h_fail_parent", "fail", []),
+    (r"^h_fail_child", "fail", []),
+    (r"^h_(argv|ident|env)", "ident", []),
+    (r"^h_(lookup|split)", "lookup", []),
 ]
 
 
